@@ -24,6 +24,13 @@ class E(Exception):
     pass
 
 
+class EF(E):
+    """an exception whose truth value is False (container-style exception with __len__)"""
+
+    def __len__(self):
+        return 0
+
+
 def _leaves(eg):
     for x in eg.exceptions:
         if isinstance(x, BaseExceptionGroup):
@@ -32,14 +39,18 @@ def _leaves(eg):
             yield x
 
 
-def scn(sym, cov, beh, cleanup, who, eager=False, native=False, return_handle=False, twice=False, T=2, J=2, sibling=False):
+def scn(sym, cov, beh, cleanup, who, eager=False, native=False, return_handle=False, twice=False, T=2, J=2, sibling=False, falsy=False, precancel=None, caller_shield=False):
     """beh: 0 started then return | 1 raise before started | 2 return w/o started | 3 started then raise | 4 block forever before started
          | 5 shielded start-up (survives cancellation), then started, then return
     cleanup (on cancellation): 0 re-raise | 1 raise E | 2 shielded sleep(1) then re-raise
-    who: which scope is cancelled at the symbolic instant: 'caller' | 'group' | 'none'"""
+    who: which scope is cancelled at the symbolic instant: 'caller' | 'group' | 'none'
+    falsy: the child's exceptions have truth value False
+    precancel: 'caller' | 'group': that scope is cancelled by the caller itself right BEFORE it calls start()
+    caller_shield: the caller of start() sits in a shielded scope (it is not hit by a cancellation of the group)"""
     import anyio
     from anyio import TASK_STATUS_IGNORED, CancelScope
 
+    E = EF if falsy else globals()["E"]
     pre = sym.int("pre", 0, T)
     post = sym.int("post", 0, T)
     ct = sym.int("ct", 0, 2 * T)
@@ -104,7 +115,7 @@ def scn(sym, cov, beh, cleanup, who, eager=False, native=False, return_handle=Fa
         tasks = {}
         try:
             async with anyio.create_task_group() as tg:
-                with CancelScope() as caller:
+                with CancelScope(shield=caller_shield) as caller:
                     tasks["host"] = asyncio.current_task()
 
                     def fire():
@@ -131,6 +142,9 @@ def scn(sym, cov, beh, cleanup, who, eager=False, native=False, return_handle=Fa
                                 st["sibling_done"] = True
 
                         tg.start_soon(sib)
+                    if precancel is not None:
+                        st["cancel_fired"] = (loop.time(), loop.cycles, False, False)
+                        (caller if precancel == "caller" else tg.cancel_scope).cancel()
                     try:
                         r = await tg.start(child, return_handle=return_handle)
                         out["start"] = r.start_value if return_handle else r
@@ -220,7 +234,7 @@ def scn(sym, cov, beh, cleanup, who, eager=False, native=False, return_handle=Fa
         cov.hit("start:caller-cancelled-before-started", who == "caller" and fired is not None and not fired[2])
         cov.hit("start:group-cancelled-before-started", who == "group" and fired is not None and not fired[2])
         cov.hit("start:cleanup-raised-while-caller-cancelled", who == "caller" and any(str(e) == "cleanup" for e in raised))
-    if who == "none":
+    if who == "none" and precancel is None:
         chk(not out.get("start_cancelled"), "start-cancelled-without-cancel")
         if beh in (0, 3, 5):
             chk("start" in out, "start-did-not-return-value", out.keys())
@@ -265,6 +279,21 @@ def units(tier):
     for beh in (0, 1, 4):
         for cleanup in (0, 1):
             us.append({"name": "native beh=%d cleanup=%d" % (beh, cleanup), "fn": scn, "params": {"beh": beh, "cleanup": cleanup, "who": "caller", "native": True}, "budget_s": 240})
+    # the scope is cancelled by the caller right before start() is called (the child starts in an already cancelled scope)
+    for pc in ("group", "caller"):
+        for beh in (0, 4, 5):
+            for cleanup in (0, 1, 2):
+                us.append({"name": "precancel=%s beh=%d cleanup=%d" % (pc, beh, cleanup), "fn": scn, "budget_s": 240,
+                           "params": {"beh": beh, "cleanup": cleanup, "who": "none", "precancel": pc, "T": 1, "J": 0}})
+    # the caller of start() is shielded from the group's cancellation (or is not a member of the group): only the child is hit
+    for beh in (0, 1, 4):
+        for cleanup in (0, 1, 2):
+            us.append({"name": "caller shielded, group cancelled beh=%d cleanup=%d" % (beh, cleanup), "fn": scn, "budget_s": 240,
+                       "params": {"beh": beh, "cleanup": cleanup, "who": "group", "caller_shield": True, "T": 1, "J": 1}})
+    # exceptions whose truth value is False
+    for beh, cleanup, who in ((1, 0, "none"), (3, 0, "none"), (3, 1, "caller"), (0, 1, "caller"), (4, 1, "group")):
+        us.append({"name": "falsy exceptions beh=%d cleanup=%d who=%s" % (beh, cleanup, who), "fn": scn, "budget_s": 240,
+                   "params": {"beh": beh, "cleanup": cleanup, "who": who, "falsy": True, "T": 1, "J": 1}})
     if not quick:
         for beh in (0, 1, 2, 3, 4):
             for cleanup in (0, 1, 2):
